@@ -70,6 +70,8 @@ def run(prog, chk):
     chk.rule(_C03.graphics_vocabulary, prog, chk)  # each of rect / circle / ellipse / line is laid out also when written with a separate end tag
     from props import strops as _so
     chk.rule(_so.affix_test_sees_what_parser_sees, prog, chk)  # `dw="50% "` and `dw="50%"` are the same shorthand value
+    from props import C19 as _C19t
+    chk.rule(_C19t.text_not_altered, prog, chk)  # `<rect xy=.. wh=..>NEWLINE</rect>` is the rect: what decides "only text inside" reads the text as written
 
 
 def _arms(owner):
